@@ -25,8 +25,8 @@ Numbers: the value columns of the model hold `Int` (null = `none`).  `AVG` is th
 pair `(sum, n)`, so that no rational arithmetic is needed here; the harness compares it
 with orso's `decimal` quotient.  The pseudo column `*` (any requested column that is not a
 column of the frame, group_by.py:96-99) has the value `"*"` in every row; the model gives
-it the non-null value `0`, which is all `COUNT` looks at (the driver refuses any other
-function on such a column).
+it the non-null (and, like the text `"*"`, truthy) value `1`; `COUNT` only looks at its being
+non-null (the driver refuses any other function on such a column).
 -/
 namespace GroupBy
 
@@ -195,7 +195,7 @@ def num : PyVal → Option Int
 def cellOf (columns : List String) (r : List PyVal) (c : String) : Option Int :=
   match index c columns with
   | some i => num (r.getD i .none)
-  | none => some 0
+  | none => some 1
 
 /-- `tuple(record[col] for col in group_column_indicies)` -/
 def keyAt (idx : List Nat) (r : List PyVal) : List PyVal := idx.map fun i => r.getD i .none
